@@ -573,9 +573,9 @@ Proof.
   intros Hk. destruct tmpl_ok_all as [A _].
   assert (In k [0; 1; 2; 3; 4]%nat) by (cbn; lia).
   pose proof (proj1 (forallb_forall _ _) A _ H) as K. unfold tmpl_ok in K.
-  destruct (compile_template (tmpl k)) as [t| |]; try discriminate.
-  destruct (decode_items (S (length t)) t 0) as [items|]; [|discriminate].
-  exists t, items. repeat split. now apply cls_eqb_eq.
+  destruct (compile_template (tmpl k)) as [t| |] eqn:E1; try discriminate.
+  destruct (decode_items (S (length t)) t 0) as [items|] eqn:E2; [|discriminate].
+  exists t, items. split; [reflexivity|]. split; [exact E2|]. now apply cls_eqb_eq.
 Qed.
 
 Lemma contract_match_items k : (k < 5)%nat -> exists items, map item_class items = map Some (tmpl_cls k) /\
@@ -620,4 +620,255 @@ Proof.
   intros H. destruct (length d <=? 75)%nat eqn:E.
   - rewrite spec_push_direct by lia. eexists _, _. split; [reflexivity|]. rewrite b2n_n2b by lia. lia.
   - rewrite spec_push_pushdata1 by lia. eexists _, _. split; [reflexivity|]. vm_compute. split; discriminate.
+Qed.
+
+(* ============================ for_info: the script constructors ============================ *)
+Lemma hex_token_short : forallb (fun e : bytes * option N => (length (fst e) <=? 2)%nat) hex_token_opcodes = true.
+Proof. vm_compute. reflexivity. Qed.
+Lemma hex_token_lookup_in t d o : hex_token_lookup t d = Some o -> In (d, o) t.
+Proof.
+  induction t as [|[d' o'] r IH]; cbn [hex_token_lookup]; [discriminate|].
+  destruct (bytes_eqb d d') eqn:E.
+  - intros H; injection H as <-. apply bytes_eqb_eq in E. subst. now left.
+  - intros H. right. auto.
+Qed.
+Lemma hex_lookup_long d : (3 <= length d)%nat -> hex_token_lookup hex_token_opcodes d = None.
+Proof.
+  intros L. destruct (hex_token_lookup hex_token_opcodes d) as [o|] eqn:E; [|reflexivity].
+  apply hex_token_lookup_in in E.
+  pose proof (proj1 (forallb_forall _ _) hex_token_short _ E) as K. cbn [fst] in K. lia.
+Qed.
+
+Lemma decimal_fold_lower ns : forall acc, (0 <= acc)%Z ->
+  (acc * 10 ^ Z.of_nat (length ns) <= fold_left (fun a n => a * 10 + Z.of_N n) ns acc)%Z.
+Proof.
+  induction ns as [|n ns IH]; intros acc Ha; cbn [fold_left length].
+  - change (Z.of_nat 0) with 0%Z. rewrite Z.pow_0_r. lia.
+  - rewrite Nat2Z.inj_succ, Z.pow_succ_r by lia.
+    pose proof (IH (acc * 10 + Z.of_N n)%Z ltac:(lia)) as Q.
+    assert (0 < 10 ^ Z.of_nat (length ns))%Z by (apply Z.pow_pos_nonneg; lia).
+    nia.
+Qed.
+Lemma nibbles_cons b d : nibbles (b :: d) = b2n b / 16 :: b2n b mod 16 :: nibbles d.
+Proof. reflexivity. Qed.
+Lemma nibbles_length d : length (nibbles d) = (2 * length d)%nat.
+Proof. induction d as [|b d IH]; [reflexivity|]. rewrite nibbles_cons. cbn [length]. lia. Qed.
+
+Lemma decimal_cond_false d : (11 <= length d)%nat ->
+  forallb (fun n => n <? 10) (nibbles d) && negb (hd 0 (nibbles d) =? 0) && (decimal_value (nibbles d) <=? max_u64)%Z = false.
+Proof.
+  intros L. destruct d as [|b d]; [cbn in L; lia|].
+  rewrite nibbles_cons. cbn [hd]. set (n0 := b2n b / 16). destruct (n0 =? 0) eqn:E0.
+  - cbn [negb]. now rewrite andb_false_r.
+  - apply andb_false_iff. right. apply Z.leb_gt.
+    unfold decimal_value. cbn [fold_left].
+    set (acc := ((0 * 10 + Z.of_N n0) * 10 + Z.of_N (b2n b mod 16))%Z).
+    pose proof (decimal_fold_lower (nibbles d) acc ltac:(unfold acc; lia)) as Q.
+    cbn [length] in L. rewrite nibbles_length in Q.
+    assert (H : (10 ^ 20 <= 10 ^ Z.of_nat (2 * length d))%Z) by (apply Z.pow_le_mono_r; lia).
+    change (10 ^ 20)%Z with 100000000000000000000%Z in H. unfold max_u64.
+    assert (10 <= acc)%Z by (unfold acc; lia). nia.
+Qed.
+
+Lemma compile_hex_token_long d : (11 <= length d)%nat -> N.of_nat (length d) < 2 ^ 32 ->
+  compile_hex_token d = Ret (spec_push d).
+Proof.
+  intros L B. unfold compile_hex_token.
+  rewrite hex_lookup_long by lia. rewrite decimal_cond_false by exact L.
+  destruct d; [cbn in L; lia|]. now apply push_is_spec.
+Qed.
+
+Ltac eval_format :=
+  match goal with |- context [format_of ?n] =>
+    let v := eval vm_compute in (format_of n) in change (format_of n) with v end.
+Ltac eval_opnames :=
+  repeat match goal with |- context [compile_opcode_name ?n] =>
+    let v := eval vm_compute in (compile_opcode_name n) in change (compile_opcode_name n) with v end.
+
+Lemma for_info_one_token i h : 
+  match i with
+  | IP2PKH x | IP2PKH_WIT x | IP2SH_WIT x | IP2SH x | IP2PK x | IP2TR x => x = h
+  | _ => False
+  end ->
+  for_info i = bind (compile_hex_token h) (fun p => Ret (
+    match i with
+    | IP2PKH _ => [x76; xa9] ++ p ++ [x88; xac]
+    | IP2PKH_WIT _ | IP2SH_WIT _ => [x00] ++ p
+    | IP2SH _ => [xa9] ++ p ++ [x87]
+    | IP2PK _ => p ++ [xac]
+    | _ => [x51] ++ p
+    end)).
+Proof.
+  destruct i; intros E; try contradiction; subst; unfold for_info; eval_format;
+    cbn [bind compile_format compile_arg]; eval_opnames; cbn [bind];
+    destruct (compile_hex_token h); cbn [bind app]; rewrite ?app_nil_r; reflexivity.
+Qed.
+
+(* the script each classified kind denotes *)
+Definition info_render (i : info) : bytes :=
+  match i with
+  | IP2PKH h => render (tmpl_cls 0) [h]
+  | IP2PKH_WIT h | IP2SH_WIT h => render (tmpl_cls 1) [h]
+  | IP2SH h => render (tmpl_cls 2) [h]
+  | IP2PK k => render (tmpl_cls 3) [k]
+  | IP2TR k => render (tmpl_cls 4) [k]
+  | INulldata d => x6a :: d
+  | IMultisig m keys =>
+    n2b (Z.to_N (80 + m)) :: concat (map spec_push keys) ++ [n2b (80 + N.of_nat (length keys)); xae]
+  | IUnknown s => s
+  end.
+
+Lemma for_info_render_token i h :
+  match i with
+  | IP2PKH x | IP2PKH_WIT x | IP2SH_WIT x | IP2SH x | IP2PK x | IP2TR x => x = h
+  | _ => False
+  end -> (11 <= length h)%nat -> N.of_nat (length h) < 2 ^ 32 -> for_info i = Ret (info_render i).
+Proof.
+  intros E L B. rewrite (for_info_one_token i h E), compile_hex_token_long by assumption. cbn [bind].
+  destruct i; try contradiction; subst; cbn [info_render render tmpl_cls]; rewrite ?app_nil_r; reflexivity.
+Qed.
+
+Lemma for_info_nulldata d : for_info (INulldata d) = Ret (x6a :: d).
+Proof. unfold for_info. eval_opnames. reflexivity. Qed.
+
+(* ============================ info_for_script: soundness ============================ *)
+Definition kcap (k : nat) : cap :=
+  match k with 0%nat | 2%nat => CPubkeyHash | 1%nat => CSegwit | 3%nat => CPubkey | _ => CSynth end.
+
+Lemma caps_single k caps : (k < 5)%nat -> caps_ok (tmpl_cls k) caps ->
+  exists c, caps = [c] /\ cap_len_ok (kcap k) (length c) = true.
+Proof.
+  intros Hk. destruct k as [|[|[|[|[|k]]]]]; try lia; cbn [tmpl_cls caps_ok kcap];
+    destruct caps as [|c caps]; try contradiction; intros [A B]; try subst caps; eauto.
+Qed.
+
+Lemma first_of_single k c : (k < 5)%nat -> first_of (kcap k) (Some (caps_list (tmpl_cls k) [c])) = Ret c.
+Proof. intros Hk. destruct k as [|[|[|[|[|k]]]]]; try lia; reflexivity. Qed.
+Lemma truthy_single k c : (k < 5)%nat -> truthy (Some (caps_list (tmpl_cls k) [c])) = true.
+Proof. intros Hk. destruct k as [|[|[|[|[|k]]]]]; try lia; reflexivity. Qed.
+
+Lemma step_sound k s d : (k < 5)%nat -> contract_match (tmpl k) s = Ret d -> truthy d = true ->
+  exists c, cap_len_ok (kcap k) (length c) = true /\ first_of (kcap k) d = Ret c /\ s = render (tmpl_cls k) [c].
+Proof.
+  intros Hk M T. destruct d as [r|]; [|discriminate].
+  destruct (contract_match_sound k s r Hk M) as (caps & OK & -> & ->).
+  destruct (caps_single k caps Hk OK) as (c & -> & L). exists c. repeat split; auto. now apply first_of_single.
+Qed.
+
+Definition payload_ok (i : info) : Prop :=
+  match i with
+  | IP2PKH h | IP2PKH_WIT h | IP2SH h => length h = 20%nat
+  | IP2SH_WIT h | IP2TR h => length h = 32%nat
+  | IP2PK k => (33 <= length k <= 120)%nat
+  | _ => True
+  end.
+
+Lemma op_return_compiled : compile_opcode_name nm_OP_RETURN = Ret [x6a].
+Proof. vm_compute. reflexivity. Qed.
+
+(* what info_for_script reports before it tries the multisig shape *)
+Lemma info_for_script_sound_simple s i : info_for_script s = Ret i ->
+  (payload_ok i /\ s = info_render i /\ match i with IMultisig _ _ | IUnknown _ => False | _ => True end)
+  \/ info_step_multisig s = Ret i.
+Proof.
+  unfold info_for_script.
+  destruct (contract_match (tmpl 0) s) as [d| |] eqn:M; cbn [bind]; try discriminate.
+  destruct (truthy d) eqn:T.
+  { destruct (step_sound 0 s d ltac:(lia) M T) as (c & L & F & E). cbn [kcap] in *. rewrite F. cbn [bind].
+    intros H; injection H as <-. left. unfold cap_len_ok, pubkeyhash_len in L. cbn [payload_ok info_render]. repeat split; auto; lia. }
+  clear M T d. unfold info_step_segwit.
+  destruct (contract_match (tmpl 1) s) as [d| |] eqn:M; cbn [bind]; try discriminate.
+  assert (NEXT : info_step_p2sh s = Ret i -> (payload_ok i /\ s = info_render i /\
+             match i with IMultisig _ _ | IUnknown _ => False | _ => True end) \/ info_step_multisig s = Ret i).
+  { clear M d. unfold info_step_p2sh.
+    destruct (contract_match (tmpl 2) s) as [d| |] eqn:M; cbn [bind]; try discriminate.
+    destruct (truthy d) eqn:T.
+    { destruct (step_sound 2 s d ltac:(lia) M T) as (c & L & F & E). cbn [kcap] in *. rewrite F. cbn [bind].
+      intros H; injection H as <-. left. unfold cap_len_ok, pubkeyhash_len in L. cbn [payload_ok info_render]. repeat split; auto; lia. }
+    clear M T d. unfold info_step_p2pk.
+    destruct (contract_match (tmpl 3) s) as [d| |] eqn:M; cbn [bind]; try discriminate.
+    destruct (truthy d) eqn:T.
+    { destruct (step_sound 3 s d ltac:(lia) M T) as (c & L & F & E). cbn [kcap] in *. rewrite F. cbn [bind].
+      intros H; injection H as <-. left. unfold cap_len_ok, pubkey_len_min, pubkey_len_max in L.
+      cbn [payload_ok info_render]. repeat split; auto; lia. }
+    clear M T d. unfold info_step_p2tr.
+    assert (NEXT : info_step_nulldata s = Ret i -> (payload_ok i /\ s = info_render i /\
+               match i with IMultisig _ _ | IUnknown _ => False | _ => True end) \/ info_step_multisig s = Ret i).
+    { unfold info_step_nulldata. rewrite op_return_compiled. cbn [bind].
+      destruct (bytes_eqb [x6a] (firstn 1 s)) eqn:E; [|now right].
+      intros H; injection H as <-. left. cbn [payload_ok info_render]. repeat split; auto.
+      apply bytes_eqb_eq in E. rewrite <- (firstn_skipn 1 s) at 1. rewrite <- E. reflexivity. }
+    destruct (contract_match (tmpl 4) s) as [d| |] eqn:M; cbn [bind]; try discriminate.
+    destruct (truthy d) eqn:T; [|exact NEXT].
+    destruct (step_sound 4 s d ltac:(lia) M T) as (c & L & F & E). cbn [kcap] in *. rewrite F. cbn [bind].
+    unfold cap_len_ok, synthetic_key_len in L. destruct (length c =? 32)%nat eqn:E32; [|lia].
+    intros H; injection H as <-. left. cbn [payload_ok info_render]. repeat split; auto; lia. }
+  destruct (truthy d) eqn:T; [|exact NEXT].
+  destruct (step_sound 1 s d ltac:(lia) M T) as (c & L & F & E). cbn [kcap] in *. rewrite F. cbn [bind].
+  unfold cap_len_ok, segwit_lens in L. cbn [existsb] in L.
+  destruct (length c =? 20)%nat eqn:E20.
+  { intros H; injection H as <-. left. cbn [payload_ok info_render]. repeat split; auto; lia. }
+  destruct (length c =? 32)%nat eqn:E32; [|lia].
+  intros H; injection H as <-. left. cbn [payload_ok info_render]. repeat split; auto; lia.
+Qed.
+
+(* ============================ _info_from_multisig_script: soundness ============================ *)
+Definition key_ok (k : bytes) : Prop := (33 <= length k <= 120)%nat.
+
+Lemma multisig_keys_inv : forall fuel s pc opcode keys opcode' pc' keys',
+  multisig_keys fuel s pc opcode keys = Ret (Some (opcode', pc', keys')) -> (pc' < length s)%nat ->
+  exists newkeys pcm d ok, keys' = keys ++ newkeys /\ Forall key_ok newkeys /\
+    skipn pc s = concat (map spec_push newkeys) ++ skipn pcm s /\ (pcm < length s)%nat /\
+    btc_get_opcode s pcm true = Ret (opcode', d, pc', ok).
+Proof.
+  induction fuel as [|fuel IH]; intros s pc opcode keys opcode' pc' keys' H LT; [discriminate|].
+  cbn [multisig_keys] in H.
+  destruct (pc <? length s)%nat eqn:E; [|injection H as _ <- _; lia].
+  destruct (btc_get_opcode s pc true) as [[[[o1 d1] pc1] ok1]|e|] eqn:G; [|destruct e; discriminate|discriminate].
+  unfold multisig_key_min, multisig_key_max in H.
+  destruct ((opt_len d1 <? 33)%nat || (120 <? opt_len d1)%nat) eqn:SZ.
+  - injection H as <- <- <-. exists [], pc, d1, ok1. rewrite app_nil_r. repeat split; auto. lia.
+  - destruct d1 as [k|]; [|cbn in SZ; discriminate]. cbn [opt_len] in SZ.
+    destruct (get_opcode_push_inv _ _ _ _ _ _ G ltac:(lia)) as [SK ->].
+    destruct (IH _ _ _ _ _ _ _ H LT) as (nk & pcm & d & ok & -> & F & SK2 & L2 & G2).
+    exists (k :: nk), pcm, d, ok. rewrite <- app_assoc. repeat split; auto.
+    + constructor; [unfold key_ok; lia|exact F].
+    + cbn [map concat]. rewrite <- app_assoc, <- SK2. exact SK.
+Qed.
+
+Lemma multisig_opcodes : int_for_opcode nm_OP_1 = Ret 81 /\ int_for_opcode nm_OP_16 = Ret 96 /\
+  int_for_opcode nm_OP_CHECKMULTISIG = Ret 174.
+Proof. repeat split; vm_compute; reflexivity. Qed.
+
+Lemma multisig_sound s i : info_from_multisig_script s = Ret (Some i) ->
+  exists m keys, i = IMultisig m keys /\ (1 <= m <= 15)%Z /\ Forall key_ok keys /\
+    (m <= Z.of_nat (length keys))%Z /\ (length keys <= 175)%nat /\ s = info_render i.
+Proof.
+  unfold info_from_multisig_script. destruct multisig_opcodes as (O1 & O16 & OC). rewrite O1, O16. cbn [bind].
+  destruct (length s =? 0)%nat eqn:E0; [discriminate|].
+  destruct (btc_get_opcode s 0 false) as [[[[o d] pc] ok]|e|] eqn:G0; cbn [bind]; try discriminate.
+  destruct (negb ((81 <=? o) && (o <? 96))) eqn:R; [discriminate|].
+  destruct (get_opcode_single_inv _ _ _ _ _ _ _ G0 (is_single_above o ltac:(lia))) as (N0 & Lo & _ & ->).
+  destruct (multisig_keys (S (length s)) s 1 o []) as [[[[o2 pc2] keys]|]| |] eqn:MK; cbn [bind]; try discriminate.
+  destruct (length s <=? pc2)%nat eqn:E1; [discriminate|].
+  destruct ((Z.of_N o2 + (1 - Z.of_N 81) <? Z.of_N o + (1 - Z.of_N 81))%Z
+            || negb (Z.of_nat (length keys) =? Z.of_N o2 + (1 - Z.of_N 81))%Z) eqn:E2; [discriminate|].
+  destruct (multisig_keys_inv _ _ _ _ _ _ _ _ MK ltac:(lia)) as (nk & pcm & d2 & ok2 & -> & F & SK & Lm & G2).
+  cbn [app] in *.
+  destruct (btc_get_opcode s pc2 false) as [[[[o3 d3] pc3] ok3]|e|] eqn:G3; cbn [bind]; try discriminate.
+  rewrite OC. cbn [bind].
+  destruct (negb (o3 =? 174)) eqn:E3; [discriminate|].
+  destruct (negb (pc3 =? length s)%nat) eqn:E4; [discriminate|].
+  intros H; injection H as <-.
+  assert (o2 = 80 + N.of_nat (length nk)) by lia.
+  destruct (get_opcode_single_inv _ _ _ _ _ _ _ G2 (is_single_above o2 ltac:(lia))) as (N2 & Lo2 & _ & ->).
+  assert (o3 = 174) by lia. subst o3.
+  destruct (get_opcode_single_inv _ _ _ _ _ _ _ G3 (is_single_above 174 ltac:(lia))) as (N3 & _ & _ & ->).
+  exists (Z.of_N o + (1 - Z.of_N 81))%Z, nk. repeat split; auto; try lia.
+  cbn [info_render].
+  replace (Z.to_N (80 + (Z.of_N o + (1 - Z.of_N 81)))) with o by lia.
+  rewrite <- (skipn_O s) at 1. rewrite (nth_error_skipn _ _ _ N0). f_equal.
+  rewrite SK. f_equal. rewrite (nth_error_skipn _ _ _ N2). subst o2. f_equal.
+  rewrite (nth_error_skipn _ _ _ N3). f_equal.
+  apply skipn_all2. lia.
 Qed.
